@@ -327,7 +327,23 @@ def _gen(seed):
         es.append(prop.modus_ponens(prop.dynamic_inst(prop.prop1(), {1: b, 0: Implies(a, a)}), prop.imp_refl(a)))
         es.append(prop.imp_refl(Implies(a, b)))
     ax = [_pat(rng) for _ in range(rng.randint(1, 3))]
+    # many sub-patterns of EQUAL size that are each used more than once and mention symbols: candidates for memoisation that tie in score
+    ties = [App(Symbol('sym_%d' % i), Symbol('sym_%d' % (i + 1))) for i in range(6)]
+    for i in range(0, 6, 2):
+        ax.append(Implies(ties[i], Implies(ties[i + 1], ties[i])))
+        ax.append(Implies(ties[i + 1], App(ties[i], ties[i + 1])))
     return ProofExp(axioms=ax, claims=[e.conc for e in es], proof_expressions=es)
+
+def _tie():
+    # two memoisation candidates C = (f . zero) and P = (C -> C) reach the SAME score (3 uses * 7 nodes == 7 uses * 3 nodes); which one is taken first
+    # decides whether C is memoised at all, so a tie broken by hash order changes the Save/Load instructions
+    f, zero = Symbol('f'), Symbol('zero')
+    c = App(f, zero)
+    p = Implies(c, c)
+    axioms = [Implies(p, EVar(i)) for i in range(3)] + [Implies(c, EVar(10 + i)) for i in range(5)]
+    m = ProofExp(axioms=axioms, claims=[axioms[3], axioms[0]])
+    m._proof_expressions = [m.load_axiom(axioms[3]), m.load_axiom(axioms[0])]
+    return m
 
 def _digest(mod, tmp, tag):
     out = {}
@@ -343,7 +359,7 @@ def _digest(mod, tmp, tag):
 
 def main(tmp, order, mm_files):
     mods = {'Propositional': Propositional, 'SmallTheory': SmallTheory, 'Substitution': Substitution,
-            'gen1': lambda: _gen(1), 'gen2': lambda: _gen(2), 'gen3': lambda: _gen(3)}
+            'gen1': lambda: _gen(1), 'gen2': lambda: _gen(2), 'gen3': lambda: _gen(3), 'tie': _tie}
     names = list(mods)
     if order == 'rev': names.reverse()
     res = {}
@@ -380,7 +396,7 @@ def determinism_bounded(root, tier, seed):
     import tempfile
     import shutil
     import glob
-    seeds = ['0', '1', '7'] if tier == 'quick' else ['0', '1', '2', '7', '13', '42']
+    seeds = ['0', '1', '2', '3', '7'] if tier == 'quick' else [str(i) for i in range(12)] + ['13', '42']
     mm = sorted(glob.glob(os.path.join(root, 'generation', 'mm-benchmarks', '*.mm')))[:3] + sorted(glob.glob(os.path.join(root, 'proofs', 'metamath', '*.mm')))[:3]
     mm = [f for f in mm if os.path.getsize(f) < 400000]
     mm += [os.path.join(os.path.dirname(os.path.dirname(os.path.abspath(__file__))), 'replay_data', 'two_vars.mm')]
